@@ -878,6 +878,29 @@ fn adapter_fact_checks(l: &[char]) -> Vec<(&'static str, bool)> {
     if !n.contains(&'\u{FFFD}') {
         out.push(("ok_nv_idem", nv(&n) == n));
     }
+    // ok_map_prefix (MapPrefix of Proofs/Idna_C10c_Drun.v): for an ASCII text a and a text that starts with an ASCII
+    // character, map_normalize(a ++ rest) = lower-cased a ++ map_normalize(rest).  uts46.rs hands map_normalize only
+    // the part of a label that starts at the last ASCII character before the first non-ASCII one; the ASCII prefix is
+    // copied into the buffer.  Every split point inside the leading ASCII run of the text (at most 12 of them, the
+    // one uts46.rs uses always among them) is checked.
+    {
+        let k = l.iter().position(|c| !c.is_ascii()).unwrap_or(l.len());
+        if k >= 2 {
+            let mut holds = true;
+            let mut js: Vec<usize> = (1..k).take(11).collect();
+            if !js.contains(&(k - 1)) {
+                js.push(k - 1);
+            }
+            for j in js {
+                let mut expect: Vec<char> = l[..j].iter().map(|c| c.to_ascii_lowercase()).collect();
+                expect.extend(mn(&l[j..]));
+                if expect != m {
+                    holds = false;
+                }
+            }
+            out.push(("ok_map_prefix", holds));
+        }
+    }
     out
 }
 fn adapter_facts(rep: &mut Report, rng: &mut Rng, thorough: bool, sources: &[String]) {
@@ -920,6 +943,9 @@ fn adapter_facts(rep: &mut Report, rng: &mut Rng, thorough: bool, sources: &[Str
             texts.push(vec!['a', c]);
             texts.push(vec![c, '\u{301}']);
             texts.push(vec!['\u{915}', '\u{94D}', c]);
+            // an ASCII prefix of two characters in front of it (MapPrefix: split after the first)
+            texts.push(vec!['X', 'a', c]);
+            texts.push(vec!['x', 'n', c, '\u{301}']);
         }
         cp += step;
     }
@@ -957,7 +983,7 @@ fn adapter_facts(rep: &mut Report, rng: &mut Rng, thorough: bool, sources: &[Str
         }
     }
     rep.notes.push(format!(
-        "adapter premises sampled on the real idna_adapter: {} texts, {} fact instances (nvnotrunc, adapternp, adapterusv, ok_ascii, ok_case, ok_stable, ok_mn_idem, ok_fffd, ok_nv_idem, and on the 128 ASCII characters ok_ascii_nomark, ok_pass_bidi; H0 = the empty text is among them)",
+        "adapter premises sampled on the real idna_adapter: {} texts, {} fact instances (nvnotrunc, adapternp, adapterusv, ok_ascii, ok_case, ok_stable, ok_mn_idem, ok_fffd, ok_nv_idem, ok_map_prefix, and on the 128 ASCII characters ok_ascii_nomark, ok_pass_bidi; H0 = the empty text is among them)",
         texts.len(),
         n
     ));
